@@ -203,6 +203,9 @@ func (g *Gen) primD(pk string, allowZero bool) D {
 		t := g.aTime()
 		if allowZero && r.P(1, 5) {
 			t = time.Time{}
+		} else if allowZero && r.P(1, 6) {
+			// the year-1 instant WITH a location: present (not the Go zero value), although t.IsZero() is true
+			t = rng.Pick(r, []time.Time{time.Time{}.In(time.FixedZone("X", 3600)), time.Unix(-62135596800, 0).In(time.FixedZone("Y", -18000))})
 		}
 		if !allowZero && t.Unix() == 0 {
 			t = time.Unix(86400, 0).UTC()
@@ -695,7 +698,9 @@ func (g *Gen) Input(n *Node) V {
 		}
 		switch n.PK {
 		case "str":
-			return rng.Pick(r, []V{VStr(rng.Pick(r, strPool)), VStr(rng.Pick(r, strPool)), VStr(rng.Pick(r, strPool)), VInt(g.smallInt()), VBool(r.P(1, 2)), VF64(g.smallFloat())})
+			return rng.Pick(r, []V{VStr(rng.Pick(r, strPool)), VStr(rng.Pick(r, strPool)), VStr(rng.Pick(r, strPool)), VInt(g.smallInt()), VBool(r.P(1, 2)), VF64(g.smallFloat()),
+				{K: "f32", F: float64(float32(rng.Pick(r, []float64{0.1, 3.14, 19.99, 1e-5, 1.5, 16777216})))}, {K: "i", IK: "i64", I: g.smallInt()}, {K: "i", IK: "i32", I: int64(int32(g.smallInt()))},
+				VF64(rng.Pick(r, []float64{0.1, 1e21, 1e-7, 123456789.125}))})
 		case "int", "i32", "i64":
 			nn := g.smallInt()
 			return rng.Pick(r, []V{VInt(nn), VInt(nn), VStr(fmt.Sprint(nn)), VStr(rng.Pick(r, []string{"+5", "007", "1_0", "0x10", " 5", "5.0", "9223372036854775808"})),
@@ -733,6 +738,14 @@ func (g *Gen) Input(n *Node) V {
 		out := V{K: "l"}
 		for i := 0; i < k; i++ {
 			out.L = append(out.L, g.Input(n.Elem))
+		}
+		if n.Elem.Kind == "prim" && r.P(1, 3) {
+			// a typed Go slice of valid elements incl. zero values ([]int{9, 0, 7}, []bool{true, false}, ...)
+			out.L = nil
+			for i := 0; i < k; i++ {
+				out.L = append(out.L, dToV(g.primD(n.Elem.PK, true)))
+			}
+			out.Typed = true
 		}
 		return out
 	case "ptr":
